@@ -1352,11 +1352,10 @@ class Concatenate(CanBehaveLikeAVariable[T]):
                     if not is_iterable(child_v_unwrapped):
                         child_v_unwrapped = [child_v_unwrapped]
                     all_values[self._id_].extend(child_v_unwrapped)
-                if id_ not in sources:
-                    all_values[id_].append(val)
-        # what was bound before the concatenation is evaluated is not part of it and keeps its binding: only the bindings
-        # of the concatenated expression are combined.
-        result = {k: HashedValue(v) for k, v in all_values.items()}
+        # the row binds the combined list and what was bound before; the variables of the concatenated expression range over
+        # all their values inside the concatenation and have no single value after it (another expression on the same
+        # variable, e.g. a second concatenation, enumerates it again).
+        result = {self._id_: HashedValue(all_values[self._id_])}
         result.update(sources)
         yield result
 
